@@ -9,7 +9,7 @@ SIZES = {"quick": (1500, 3.0), "thorough": (40000, 40.0)}
 
 RULE = ("proof (partial): Props/C07.lean — regenerated lock discipline of memory.go (every index access under the receiver's "
         "lock, read-locked methods write nothing, AddTriples locks the whole batch, RemoveTriples per triple, no nesting), "
-        "no wait cycle with one lock at a time, soundness of the linearizability search. Data races, Go's memory model and "
+        "no wait cycle with one lock at a time, a look-up that sends under the read lock with its consumer and a writer (Model/Chan.lean: a draining consumer never halts them, for every number of results and every schedule; a consumer reading the same graph can — D37), the store's lock and a graph's (Model/Chan2.lean), linearizability of calls under one readers-writer lock for every interleaving, soundness of the linearizability search. Data races, Go's memory model and "
         "runtime fairness are outside a model. Tie: `conc` runs — (H) small concurrent histories (2-3 goroutines released "
         "together, 1-3 operations each: AddTriples/RemoveTriples of random batches over six triples, Exist, Triples, and "
         "NewGraph/Graph/DeleteGraph/GraphNames on a second graph) recorded on the real driver with call/return stamps and "
